@@ -33,6 +33,9 @@ def _graphs(tier):
             out.append((f"atlas-n{n}m{m}", sorted(g.nodes()), list(g.edges())))
     for M in range(1, 6):
         out.append((f"star{M}", list(range(M + 1)), [(0, j) for j in range(1, M + 1)]))
+    # the vertex of highest degree sits in the smaller component
+    out.append(("star3+path5", list(range(9)), [(0, 1), (0, 2), (0, 3), (4, 5), (5, 6), (6, 7), (7, 8)]))
+    out.append(("star3+cycle5", list(range(9)), [(0, 1), (0, 2), (0, 3), (4, 5), (5, 6), (6, 7), (7, 8), (8, 4)]))
     # multigraphs: parallel edges are separate bonds
     out.append(("multi-double-edge", [0, 1], [(0, 1), (0, 1)]))
     out.append(("multi-triangle-doubled-side", [0, 1, 2], [(0, 1), (0, 1), (1, 2), (0, 2)]))
@@ -43,7 +46,9 @@ def _graphs(tier):
 def configs(tier):
     cfgs = []
     for gi, (nm, nodes, edges) in enumerate(_graphs(tier)):
-        lab = {v: [3, 8, 1, 6, 0, 11][j] for j, v in enumerate(nodes)}
+        lab = {v: ([3, 8, 1, 6, 0, 11] if len(nodes) <= 6 else list(range(10, 30)))[j] for j, v in enumerate(nodes)}
+        if nm == "star3":
+            lab = {0: "hub", 1: 1, 2: 2, 3: "leaf"}  # vertex labels of mixed types
         for mode in ("sym", "one", "zero"):
             cfgs.append({"name": f"{gi}-{nm}-phi:{mode}", "nodes": [lab[v] for v in nodes],
                          "edges": [(lab[a], lab[b]) for a, b in edges], "phi": mode})
